@@ -44,6 +44,20 @@ CHECKS = {
              'C03/Caps.v is a human-reviewed whitelist; CPython ast.parse and audit events; re/difflib internals. Value-level '
              'confinement theorems over the evaluator model (coq/theories/Expr) are part of C04/C08; this check does not depend on them.',
         technique='Rocq proof over a source-extracted capability table + validate model + adversarial differential with audit hook'),
+    'C08': dict(
+        category='proof',
+        text='The table of every expression-evaluation call site in src/tally (what its innermost try catches, what the handler does) '
+             'and the evaluators own Exception->ExpressionError conversion are regenerated from /repo on every run; C08/Props.v proves '
+             'that whatever exception class below Exception is raised at any node, no call site lets it escape and each site observes '
+             'exactly "not applicable" (skip / None / not a member). That a skipped rule has no influence on the result is the engine-model '
+             'theorem c01_false_rules_have_no_influence (C01). The implementation is driven with a catalogue of ill-typed expressions in '
+             'every position (match, let, field, tag, variable, transform, view filter/variable, CSV parsing) and must (a) complete and '
+             '(b) give the result obtained with exactly the failing rules/views deleted.',
+        design_ref='DESIGN.md §4 C08',
+        note='Trusted: Coq kernel/vm_compute; tools/c08_catch_sites.py (syntactic site finder); the modelled Python exception hierarchy '
+             '(only the classes that matter); deletion oracle uses the implementation evaluator to decide which rules fail. Genuine '
+             'defect found and repaired in /repo (fix: 58dcdc1) — before it, TypeError/AttributeError/StopIteration escaped match().',
+        technique='Rocq proof over a source-extracted catch-site table + ill-typed differential with deletion oracle'),
 }
 
 PENDING = {}
